@@ -222,6 +222,18 @@ theorem uploadPart_isolated (cfg : Cfg) (s : State) (w : Who) (now : Int) (b k i
       simp only [List.mem_map]
       exact ⟨u, hu, by simp [hne]⟩
 
+/-- **A part is accepted only for an upload that exists**: an id that names no upload in progress of
+that key — in particular the EMPTY id, whatever uploads the key has (every id issued is non-empty) — is
+answered NoSuchUpload and nothing changes (the defect repaired by 0eb26d4 stored such a part). -/
+theorem uploadPart_unknown_id_refused (cfg : Cfg) (s : State) (w : Who) (now : Int) (b k id : Bytes) (num : Nat)
+    (data : Data) (etag : Bytes) (bk : Bucket) (hb : findBucket s b = some bk)
+    (hacc : verifyAccess cfg bk w .write actPutObject k = none)
+    (hno : ∀ u ∈ bk.uploads, ¬ (u.key == k && u.id == id) = true) :
+    handle cfg s w now (.uploadPart b k id num data etag) = (s, errR "NoSuchUpload") := by
+  have hf : bk.uploads.find? (fun u => u.key == k && u.id == id) = none :=
+    List.find?_eq_none.mpr (fun u hu => by simpa using hno u hu)
+  simp only [handle, withBucket, hb, guarded, hacc, hf]
+
 /-- parts and uploads in progress are not objects: the operations on uploads never change the
 bucket's object map (only completion does) -/
 theorem createUpload_no_object (cfg : Cfg) (s : State) (w : Who) (now : Int) (b k : Bytes) (p : PutSpec) (nid : Bytes)
